@@ -66,6 +66,10 @@ CLAIMED = {
     text="Reader/writer agreement extracted from MIR: the reader layout of every SMB dissector (order, width and endianness of the fields, from the per-state arms of parse(): which field is written, by which reader, which state follows) and the writer layout of every repl() (ordered append sequence with byte widths and running offsets) are computed; (R1) each correlation field (SMB1 command/PIDHigh/TID/PIDLow/UID/MID, SMB2 command/MessageId/AsyncId/SessionId) is written at exactly the offset and width it was read from, the magic is first, the reply flag sits at the offset the request flags are read from, the payload follows a header of the request's header length, all appends run once on every reply path; (R2) every embedded length/offset is derived from the bytes actually appended: SecurityBufferOffset = 64 + bytes appended before the blob, blob length fields = len() of the very constant appended, ByteCount = bytes following it, WordCount*2 = parameter bytes present, NetBIOS length = len(payload) as 17-bit big-endian; (R3) only commands {0x72,0x73}/{0,1} get a dissector, a reply needs d.state == End on every path (path-sensitive), SMB2 without an offered supported dialect yields None, the SMB1 dialect index is a position() in the client's list.",
     note="The dialect strings/codes accumulated by the byte FSM and the contents of the security blobs are not decided.",
     technique="reader-layout and writer-layout extraction from MIR + offset/length arithmetic agreement", ref="§4 C17"),
+ 'C14': dict(
+    text="(R1) header: the reader layout (6 big-endian u16 fields, from the dissector arms) and the 12-byte writer layout agree field by field; QR/OPCODE/RD are parsed at bits 15/11/8 of the flags word and serialised at bits 7/3/0 of its high byte (shift agreement), the low flags byte is 0; the response copies ID, OPCODE, RD, QDCOUNT, sets QR=1 and ANCOUNT=QDCOUNT, NSCOUNT/ARCOUNT stay 0; (R2) inside the loop over the query's questions every iteration that continues pushes exactly one echoed question (re-parsed serialisation of the parsed question) and one answer (that question's repl()), otherwise the function returns None; (R3) an answer exists only behind class==IN and type==A (enum discriminant gates), with type A, class IN, positive TTL, RDATA = octets of client_info.ip.dst (IPv4), RDLENGTH = len(RDATA), owner name copied from the question; record and question wire order name/type/class(/ttl/rdlen/rdata) with 2/2/4/2-byte big-endian fields; the u16<->enum code tables are evaluated exhaustively (A=1, IN=1, 28 and 3 are not A/IN); (R4) try_from yields Ok only behind state==End, the end-anchored signature search runs only after NO_MATCH, DNS parsing only behind id==NO_MATCH and only on the datagram path.",
+    note="Label structure of names (lengths 0..63, compression, zero bytes inside labels) is not interpreted by the code and not decided here; equality of the number of parsed questions with QDCOUNT is a parser-state invariant (not decided).",
+    technique="reader/writer layout extraction + provenance + loop-body must-pass + exhaustive evaluation of code tables on MIR", ref="§4 C14"),
 }
 
 NOT_YET = {}
